@@ -9,7 +9,7 @@ from .. import progs, layout
 ID = "C11"
 LEAN_MODULES = ["PycModel.Properties.C11"]
 NAMESPACES = ["PycModel.C11", "PycModel.LexPos"]
-REQUIRED_THEOREMS = ["PycModel.C11.resolved_position_is_event_position", "PycModel.C11.lex_error_location", "PycModel.C11.token_coord_file", "PycModel.C11.coord_is_true_token_position"]
+REQUIRED_THEOREMS = ["PycModel.C11.resolved_position_is_event_position", "PycModel.C11.lex_error_location", "PycModel.C11.token_coord_file", "PycModel.C11.coord_is_true_token_position", "PycModel.C11.declared_name_coordinate_is_its_token", "PycModel.C11.decl_typedecl_names_its_token"]
 LEVEL = "proof"
 TRUSTED = ["span membership (the token lies inside the construct) is not modelled; checked are: real token, right file/line, exact spelling for leaf nodes, coordinates present, and full agreement of every coordinate with the Lean parser model"]
 ASSUMPTIONS = []
